@@ -196,7 +196,7 @@ func runC16(c *Ctx) {
 	}
 
 	h.w = newWorld(c)
-	defer h.w.close()
+	defer func() { h.w.close() }()
 
 	// corpus: the reproduced defects first
 	for _, s := range []script{
@@ -211,8 +211,17 @@ func runC16(c *Ctx) {
 	}
 
 	// every fault x relation x kind
+	// a long chain of instantly mined blocks drives the difficulty up: every
+	// round (and every few hundred random scripts) starts from a fresh world
+	fresh := func() {
+		h.w.close()
+		h.w = newWorld(c)
+	}
 	rounds := c.Scale(1, 6)
 	for round := 0; round < rounds; round++ {
+		if round > 0 {
+			fresh()
+		}
 		for _, rel := range relations {
 			for _, kind := range kinds {
 				for _, fault := range allFaults {
@@ -270,6 +279,9 @@ func runC16(c *Ctx) {
 	// random scripts
 	nrand := c.Scale(120, 3000)
 	for i := 0; i < nrand; i++ {
+		if i%400 == 399 {
+			fresh()
+		}
 		s := script{Kind: kinds[c.R.Intn(3)], Relation: relations[c.R.Intn(len(relations))],
 			Fault: allFaults[c.R.Intn(len(allFaults))], Partial: c.R.Bool(), Unconf: c.R.Chance(1, 3), Large: c.R.Chance(1, 3)}
 		if i < 3 {
